@@ -203,7 +203,7 @@ for d in sorted(glob.glob(os.path.join(HERE, "seeded", "C*-*"))):
         status += " - " + NOT_CAUGHT[sid]
     rows.append("| %s | %s | %s |" % (sid, first.replace("|", "/"), status.replace("|", "/")))
 out = ["# Seeded changes (independent sub-agents; each confirmed by the lead in a scratch worktree)", "",
-       "Run a check against one: `git -C /repo apply seeded/<id>/patch.diff; bin/check <Cxx> --tier quick --no-evidence; git -C /repo checkout -- .`", "",
+       "Run a check against one: `git -C /repo apply /verif/seeded/<id>/patch.diff; bin/check <Cxx> --tier quick --no-evidence; git -C /repo checkout -- .` (absolute path: `git -C` resolves relative paths inside /repo)", "",
        "| seed | change (first line of the seeder's README) | quick-tier result of the registered check(s) |", "|---|---|---|"] + rows
 open(os.path.join(HERE, "seeded", "LEDGER.md"), "w").write("\n".join(out) + "\n")
 print(len(rows), "seeds;", sum("NOT caught" in r for r in rows), "not caught")
